@@ -36,15 +36,17 @@ RS = RuleSet(
         'without export in the current context and the others in a volatile context with export; a built-in error '
         'interrupts iff the innermost Builtin frame is special, which is `type == Special` for a directly executed '
         'built-in and constant false under `command`; run_exit_trap is called by exactly the shell process and the '
-        'five subshell bodies, exactly once on every path and after the commands, skipped by the shell process only '
-        'on Abort; in the read-eval loop a Divert ends the loop before the next command is read, and an Interrupt '
+        'five subshell bodies, exactly once on every path and after the commands, for every way the read-eval loop can '
+        'end (the Abort case, where the shell process and the subshell bodies disagree, is rule C10.R6b); in the '
+        'read-eval loop a Divert ends the loop before the next command is read, and an Interrupt '
         'is absorbed only when the loop is interactive and the error recoverable.'),
     not_decided='the dynamic chain of enclosing contexts for arbitrary programs (which frames are on the stack when a '
                 'given command runs), the numeric exit statuses of individual utilities, that the parser reports '
                 'every syntax error; signal-triggered termination',
     trusted=['docs/src/termination.md "Shell errors" table transcribed in rules/C10.py',
              'rules/C02.py abstract interpreter (awaited futures complete; unwind edges dropped)'],
-    assumptions=['calls without a model return an unconstrained value and every switch on it is explored on all edges',
+    assumptions=['calls without a model return an unconstrained value and every switch on it is explored on all edges; '
+                 'effects of unmodelled callees on memory are not tracked; loops are unrolled a bounded number of times',
                  'a function reachable only through a function pointer stored in Env::any (RunFunction, '
                  'RunReadEvalLoop) is analysed at its definition, not at the indirect call'],
 )
@@ -378,7 +380,6 @@ def r3(cx):
                 cx.violation(ab.fn, 'applicable-inputs', 'errexit_is_applicable consults option %s and frame %s instead of '
                              'ErrExit / Condition' % (seen.get('opt'), seen.get('frame')), loc=bloc(ab))
     # the option actually tested is ErrExit (when it is tested at all on some path) - checked statically too
-    consts = [vfmt(('c', 0))]
     du = Q.DefUse(ab)
     gets = Q.find_calls(ab, ['yash_env::option::OptionSet::get'])
     conts = Q.find_calls(ab, [re.compile(r'::contains$')])
@@ -406,6 +407,7 @@ def r3(cx):
             outs = [o for o in sym_paths(cx, F, eb, oracle) if o['end'] == 'return']
             cx.cellcount(1)
             got = sorted({vfmt(o['ret']) for o in outs})
+            cx.sample({'apply_errexit': {'status_zero': success, 'errexit_applicable': appl, 'result': got}})
             want = ['Break(Exit(None))'] if (not success and appl) else ['Continue(())']
             if got != want:
                 cx.violation(eb.fn, 'apply:%s,%s' % ('zero' if success else 'nonzero', 'applicable' if appl else 'exempt'),
@@ -436,7 +438,6 @@ def r4(cx):
             cx.violation(adt, 'new-error-family', 'a new error type implements Handle: its consequence (abort / continue) '
                          'is not in the documented table', loc='?')
     # the assignment error IS the expansion error (documented: "follows expansion")
-    a = F.hir.get('yash_semantics::assign::Error')
     asg = [k for k in F.adts if k.startswith('yash_semantics::assign::') and k.endswith('Error')]
     cx.site('assign error types: %s' % (asg or 're-export of expansion::Error'))
     for k in asg:
@@ -461,6 +462,7 @@ def r4(cx):
             want = 'ERROR' if src[0] == 'DotScript' else 'READ_ERROR'
         seen.add((cause[0], src[0] if src else '*'))
         got = vfmt(o['ret'], 5)
+        cx.sample({'parser error': cause[0], 'source': src[0] if src else 'any', 'result': got})
         if got != 'Break(Interrupt(Some(%s%s)))' % (STATUS, want) or len(ev_calls(o, PRINT)) != 1:
             cx.violation(pb.root, 'parser-error:%s,%s' % (cause[0], src[0] if src else 'any'),
                          'a %s error in %s source yields %s after %d message(s); documented: message once, '
@@ -632,7 +634,7 @@ RUNS_COMMANDS = EXECUTE + ['*::read_eval_loop', '*::interactive_read_eval_loop',
 
 
 @RS.rule('C10.R6', 'K-CALLERS+K-EFFECT', 'the EXIT trap runs exactly once in every shell process: called by the shell and the '
-                                         'subshell bodies only, once on every path, after the commands; skipped only on Abort')
+                                         'subshell bodies only, once on every path, after the commands (Abort: see R6b)')
 def r6(cx):
     F = cx.F
     callers = F.callers_of(lambda names, t: RUN_EXIT_TRAP[0] in names)
@@ -701,32 +703,7 @@ def r6(cx):
             cx.violation(helper, 'caller:%s' % helper.split('::')[-1], '%s (which runs the EXIT trap) must be called only as '
                          'the subshell body in %s; found %s' % (helper, starter, sorted(roots)), loc=bloc(F.body(helper)))
     # the shell process
-    cb = F.main_body('yash_cli::run_as_shell_process')
-    cx.fn(cb.fn)
-    LOOPS = ['*::read_eval_loop', '*::interactive_read_eval_loop']
-    inputs = [('normal', mk_enum('Continue', UNIT))]
-    for v in DIVERT_ORDER:
-        inputs.append((v, mk_enum('Break', ('enum', v, {}, 'D'))))
-    for label, x in inputs:
-        def oracle(sym, st, t, args, x=x):
-            if Q.callee_is(t, LOOPS):
-                return x
-            if Q.callee_is(t, ['yash_cli::startup::args::parse']):
-                return mk_enum('Ok', mk_enum('Run', ('u', 'run')))
-            if Q.callee_is(t, ['yash_cli::startup::input::prepare_input']):
-                return mk_enum('Ok', ('u', 'lexer'))
-            return None
-        outs = [o for o in sym_paths(cx, F, cb, oracle, max_visits=3) if o['end'] == 'return' and ev_calls(o, LOOPS)]
-        cx.cellcount(1)
-        cx.require(outs, 'run_as_shell_process: no path runs the read-eval loop')
-        for o in outs:
-            tr = trace_of(o, [('loop', LOOPS), ('apply', APPLY_RESULT), ('trap', RUN_EXIT_TRAP)])
-            names = [nm for nm, i, e in tr if nm != 'pop']
-            want = ['loop', 'apply'] + ([] if label == 'Abort' else ['trap'])
-            if names != want:
-                cx.violation(cb.root, 'shell-exit:%s' % label, 'when the script ends with %s the shell process performs %s; '
-                             'expected %s (the EXIT trap runs once, except after Abort)' % (vfmt(x), names, want), loc=bloc(cb))
-                break
+    _shell_exit_table(cx, [v for v in ['normal'] + DIVERT_ORDER if v != 'Abort'])
     # run_exit_trap itself: at most one execution of the trap action, result applied to $?
     tb = F.main_body(RUN_EXIT_TRAP[0])
     cx.fn(tb.fn)
@@ -747,6 +724,51 @@ def r6(cx):
                              'apply its result to $?', loc=bloc(tb))
     if not n_run:
         cx.violation(tb.root, 'trap-action-never', 'run_exit_trap never runs the trap action', loc=bloc(tb))
+
+
+def _shell_exit_table(cx, labels):
+    """What the shell process does after the read-eval loop ended with each outcome."""
+    F = cx.F
+    cb = F.main_body('yash_cli::run_as_shell_process')
+    cx.fn(cb.fn)
+    LOOPS = ['*::read_eval_loop', '*::interactive_read_eval_loop']
+    for label in labels:
+        x = mk_enum('Continue', UNIT) if label == 'normal' else mk_enum('Break', ('enum', label, {}, 'D'))
+
+        def oracle(sym, st, t, args, x=x):
+            if Q.callee_is(t, LOOPS):
+                return x
+            if Q.callee_is(t, ['yash_cli::startup::args::parse']):
+                return mk_enum('Ok', mk_enum('Run', ('u', 'run')))
+            if Q.callee_is(t, ['yash_cli::startup::input::prepare_input']):
+                return mk_enum('Ok', ('u', 'lexer'))
+            return None
+        outs = [o for o in sym_paths(cx, F, cb, oracle, max_visits=3) if o['end'] == 'return' and ev_calls(o, LOOPS)]
+        cx.cellcount(1)
+        cx.require(outs, 'run_as_shell_process: no path runs the read-eval loop')
+        for o in outs:
+            tr = trace_of(o, [('loop', LOOPS), ('apply', APPLY_RESULT), ('trap', RUN_EXIT_TRAP)])
+            names = [nm for nm, i, e in tr if nm != 'pop']
+            want = ['loop', 'apply', 'trap']
+            if names != want:
+                extra = ''
+                if label == 'Abort':
+                    prod = sorted({b.root for fn, b in F.bodies.items() if not fn.startswith('<yash_env::semantics::Divert as ')
+                                   for blk, j, s in Q.find_aggregates(b, 'yash_env::semantics::Divert', 'Abort')})
+                    extra = (' Abort is produced by %s (a failed `exec` in a non-interactive shell): e.g. '
+                             '`trap "echo bye" EXIT; exec /nonexistent` exits 127 without printing bye, although every '
+                             'subshell body runs the trap unconditionally (`(trap "echo bye" EXIT; exec /nonexistent)` '
+                             'prints bye) and docs/src/termination.md says the trap runs regardless of how the shell '
+                             'exits.' % prod)
+                cx.violation(cb.root, 'shell-exit:%s' % label, 'when the script ends with %s the shell process performs %s; '
+                             'expected %s (the EXIT trap runs exactly once at every exit of the shell).%s'
+                             % (vfmt(x), names, want, extra), loc=bloc(cb))
+                break
+
+
+@RS.rule('C10.R6b', 'K-SIBLING', 'the shell process runs the EXIT trap after Divert::Abort too, as every subshell body does')
+def r6b(cx):
+    _shell_exit_table(cx, ['Abort'])
 
 
 # ====================================================================== C10.R8 built-in errors
